@@ -389,7 +389,7 @@ BBASSIGN = {
 
 class SymExec:
     def __init__(self, facts, body, cgen=None, tgen=None, max_paths=20000, inline=None,
-                 opaque=None, max_inline_blocks=20, max_depth=4, params=None, entry_store=None, raw=False, count_next=False):
+                 opaque=None, max_inline_blocks=20, max_depth=4, params=None, entry_store=None, raw=False, count_next=False, peel=False, record_assigns=False):
         self.facts = facts
         self.ops = Ops(facts)
         self.body = body
@@ -408,6 +408,8 @@ class SymExec:
         self.nevents = 0
         self.raw = raw
         self.count_next = count_next
+        self.peel = peel
+        self.record_assigns = record_assigns
         self.types = {}
         self.dn = {}
         self._modset = {}
@@ -608,6 +610,10 @@ class SymExec:
                                    depth=len(st.frames) - 1))
             return
         root, path = a
+        if self.record_assigns and path and path[0][0] == "f":
+            st.events.append(Event(idx=len(st.events), kind="assign", name=path[0][1], decl=root, args=(val,),
+                                   targs=(), bb=fr.bb, fn=fr.body.key, line=0, ncond=len(st.conds), ret=None,
+                                   depth=len(st.frames) - 1))
         if not path:
             st.store[root] = val
             if root[0] == "L" and isinstance(val, tuple) and val and val[0] not in ("int", "ptr"):
@@ -644,7 +650,7 @@ class SymExec:
             return ("str", op["str"])
         if "dec" in op:
             d = self.decode(op["dec"])
-            if ty.startswith("&"):
+            if ty.startswith("&") and d[0] != "str":
                 return ("ref", d)
             return d
         if "item" in op:
@@ -686,6 +692,8 @@ class SymExec:
                     return ("bbconst", d["fields"][0][1])
                 return ("agg", d["struct"], d["struct"].rsplit("::", 1)[-1], None,
                         tuple((n, self.decode(v)) for n, v in d["fields"]))
+            if "strlit" in d:
+                return ("str", d["strlit"])
             if "enum" in d:
                 if "payload" in d:
                     pl = tuple((str(i), self.decode(x)) for i, x in enumerate(d["payload"]))
@@ -768,6 +776,13 @@ class SymExec:
         loops, loopw = self.loops_of(fr.body)
         if bb in loops:
             key = (fr.fid, bb)
+            if self.peel:
+                # first arrival: run the header (and possibly one iteration) with the exact state;
+                # second arrival (first back edge): havoc and explore one generic iteration; third: stop
+                pk = ("peeled", fr.fid, bb)
+                if pk not in st.active:
+                    st.active.add(pk)
+                    return True
             if key in st.active:
                 return False
             st.active.add(key)
